@@ -113,7 +113,13 @@ impl Prop for SetClear {
         let off = if date { 0 } else { gen::offset(u)? };
         // instants biased so that the local date differs from the UTC date, to month/year ends, Feb 29
         let mut i = gen::inst(u, 4)?;
-        if !date && off != 0 && u.coin(1, 2)? {
+        let edge = u.coin(1, 12)?;
+        let (i_e, off_e) = if edge { gen::edge_inst_off(u)? } else { (i, off) };
+        let off = if edge && !date { off_e } else { off };
+        if edge {
+            i = i_e;
+        }
+        if !edge && !date && off != 0 && u.coin(1, 2)? {
             // put the UTC time of day within |off| of midnight on the side that flips the local date
             let o = off as i64 * 1_000_000_000;
             let within = u.below(o.unsigned_abs().max(1))? as i64;
@@ -159,8 +165,9 @@ impl Prop for SetClear {
         if !c.i.valid() || c.off.abs() > 86_399 || (c.date && c.off != 0) {
             return Verdict::Skip("malformed case");
         }
-        if c.i.day < cal::MIN_DAY + 3 || c.i.day > cal::MAX_DAY - 3 {
-            return Verdict::Skip("receiver within 3 days of a range end");
+        let near_end = c.i.day < cal::MIN_DAY + 3 || c.i.day > cal::MAX_DAY - 3;
+        if near_end && matches!(c.op, Op::Clear { .. }) {
+            return Verdict::Skip("clear_until_* on a receiver within 3 days of a range end (infallible signature, unspecified)");
         }
         match &c.op {
             Op::Set { field, v } => {
@@ -176,11 +183,24 @@ impl Prop for SetClear {
         }
         let utc = if c.date { c.i.day as i128 * tl::DAY_NS } else { c.i.i() };
         let local = utc + c.off as i128 * tl::NS;
-        let want_local = model(local, &c.op);
+        if !tl::representable(local) {
+            return Verdict::Skip("receiver whose local reading is not representable cannot be built");
+        }
+        let mut want_local = model(local, &c.op);
         if let Some(wl) = want_local {
             let d = wl.div_euclid(tl::DAY_NS) as i64;
             if d < cal::MIN_DAY + 2 || d > cal::MAX_DAY - 2 {
-                return Verdict::Skip("target local date within 2 days of a range end (unspecified)");
+                if matches!(c.op, Op::Clear { .. }) {
+                    return Verdict::Skip("clear_until_* target within 2 days of a range end (unspecified)");
+                }
+                // setters return a Result: a valid local reading whose instant is not
+                // representable is "out of range", everything else has its exact value
+                if !tl::representable(wl) || !tl::representable(wl - c.off as i128 * tl::NS) {
+                    want_local = None;
+                    cx.nt("valid_fields_but_unrepresentable_instant");
+                } else {
+                    cx.nt("set_result_on_an_outermost_day");
+                }
             }
         }
         // classification
